@@ -254,7 +254,8 @@ def check_future(rec, cfg):
     def body():
         runs["n"] += 1
         started.set()
-        gate.wait(20)
+        if not gate.wait(60):
+            runs["gate_timed_out"] = True       # harness starved: the case says nothing
         if cfg["outcome"] == "throw":
             raise Boom()
         return 77
@@ -278,6 +279,9 @@ def check_future(rec, cfg):
     for t in ths:
         t.start()
     timed = s["deref"](fut, 1, "TIMEOUT")
+    if runs.get("gate_timed_out"):
+        rec.inconclusive += 1
+        return
     if timed != "TIMEOUT":
         raise Violation("future-timed-deref-returned-before-body-finished", case, f"{timed!r}")
     gate.set()
